@@ -357,6 +357,10 @@ def enum_operators(seed):
     check("atom", built)
     cpvs = [f"{c}/{p}-{v}" for c in cats[:4] for p in pkgs_[:2] for v in ("1", "1.0", "1.00", "1.0-r0", "1.0-r1", "1.0-r010", "1.0-r0100", "1.0-r10", "1.0_alpha", "1.0_alpha0")]
     check("cpv", [(f"VersionedCPV({t!r})", VersionedCPV(t)) for t in rnd.sample(cpvs, 36)])
+    # suffix chains of different length whose shared suffixes differ in their number (either operand may be the longer one)
+    chains = ["1.0_alpha1", "1.0_alpha2", "1.0_alpha2_p1", "1.0_alpha1_p2", "1.0_beta3_p20200101", "1.0_beta4", "1.0_p1", "1.0_p2", "1.0_p2_alpha1", "1.0_p1_alpha2", "1.0_rc1_p1_p2", "1.0_rc2_p1", "1.0_rc1_p2"]
+    check("cpv", [(f"VersionedCPV('dev/zlib-{v}')", VersionedCPV(f"dev/zlib-{v}")) for v in chains])
+    check("atom", [(f"atom('{op}dev/zlib-{v}')", atom(f"{op}dev/zlib-{v}")) for op in ("=", ">=") for v in chains])
     return {"name": "C02.operators.bounded_enumeration", "bound": f"all pairs of {len(atoms)} atoms and of 36 of {len(cpvs)} versioned CPVs (categories and packages that are prefixes of one another, version and revision spellings "
             "with zeros on either side, slots, operators, blockers, USE lists): the six operators, their mirror images, hash on equality, sorted() against <=", "cases": cases, "failures": fails}
 
